@@ -79,10 +79,17 @@ impl Property for C11 {
             lc.n_range = *rng.pick(&[10, 40, 1000]);
             lc.null_pct = *rng.pick(&[0, 10]);
         }
+        let with_join = rng.chance(1, 6);
         let query = if rng.chance(1, 3) {
-            sqlgen::gen_select(rng, &cfg, false)
+            let mut q = sqlgen::gen_select(rng, &cfg, false);
+            if with_join {
+                q.join = Some(sqlgen::gen_join(rng));
+                q.projections = vec![rng.pick(&["t.k, u.m, w", "*", "t.n, u.k"]).to_string()];
+                q.filter = if rng.chance(1, 3) { Some(sqlgen::gen_filter_joined(rng)) } else { None };
+            }
+            q
         } else {
-            let mut q = sqlgen::gen_aggregate(rng, &cfg, &AggCfg { order_insensitive: false, allow_join: false, max_aggs: 4 });
+            let mut q = sqlgen::gen_aggregate(rng, &cfg, &AggCfg { order_insensitive: false, allow_join: with_join, max_aggs: 4 });
             if rng.chance(1, 4) {
                 // the shape the DISTINCT memory matters for
                 q.distinct = true;
@@ -116,14 +123,16 @@ impl Property for C11 {
         };
         let cfgs = gen::gen_sched_cfg(rng);
         let steps = gen::gen_steps(rng, &cfgs, cuts.len() + 1, 3, 2);
+        let joined: Vec<Vec<u8>> = if query.join.is_some() { (0..rng.range(0, 8)).map(|_| sqlgen::gen_joined_line(rng, lc.keys.min(3), 10).into_bytes()).collect() } else { Vec::new() };
         json!({
             "prop": "C11",
-            "defs": sqlgen::table_defs(&cfg),
+            "joined": if query.join.is_some() { J::String(enc(&gen::join_lines(&joined, true))) } else { J::Null },
+            "defs": format!("{} {}", sqlgen::table_defs(&cfg), sqlgen::JOINED_DEFS),
             "stmt": query.text(),
             "aggregate": query.aggregate,
             "lines": enc_list(&lines),
             "format": rng.pick(&["text", "json", "json"]),
-            "follow": rng.chance(1, 2),
+            "follow": query.join.is_none() && rng.chance(1, 2),
             "cuts": cuts,
             "steps": steps_to_json(&steps),
             "read_mode": read_mode_to_json(&gen::gen_read_mode(rng)),
@@ -134,6 +143,7 @@ impl Property for C11 {
         use crate::shrink::*;
         let mut out = Vec::new();
         bytes_array_field(case, "lines", &mut out);
+        bytes_field(case, "joined", &mut out);
         bool_field(case, "follow", false, &mut out);
         array_field(case, "cuts", &mut out);
         steps_field(case, "steps", &mut out);
@@ -154,12 +164,16 @@ impl Property for C11 {
         }
         let n = lines.len();
         let upper = stmt.to_uppercase();
-        let features = json!({"distinct": upper.contains("DISTINCT "), "having": upper.contains(" HAVING ")});
+        let joined: Option<Vec<u8>> = case.get("joined").and_then(|j| j.as_str()).map(dec);
+        let features = json!({"distinct": upper.contains("DISTINCT "), "having": upper.contains(" HAVING "), "join": joined.is_some()});
 
         // --- L1: the engine fed line by line
         let mut espec = WorldSpec::new(&defs, &stmt, Mode::Engine);
         espec.engine_lines = lines.iter().map(|l| String::from_utf8(l.clone()).unwrap()).collect();
         espec.format = format.clone();
+        if let Some(j) = &joined {
+            espec.extra_files.push((sqlgen::JOINED_PATH.to_owned(), j.clone()));
+        }
         let l1 = run(&mut out, "L1 engine, line by line", &espec, want_trace);
         if !usable(&mut out, "c11", &l1, &features) {
             return out;
@@ -175,7 +189,7 @@ impl Property for C11 {
         let upto = l1_failed_at.unwrap_or(n).min(n);
         for k in 1..=upto {
             let file = gen::join_lines(&lines[..k], true);
-            let mut b = batch_spec(&defs, &stmt, &[file], None);
+            let mut b = batch_spec(&defs, &stmt, &[file], joined.as_deref());
             b.format = format.clone();
             let r = run(&mut out, &format!("batch over first {} lines", k), &b, false);
             if !usable(&mut out, "c11", &r, &features) {
@@ -234,7 +248,8 @@ impl Property for C11 {
         out.probe("wrapped_aggregate", (stmt.contains(") * 2") || stmt.contains(") + 1") || stmt.contains(") - 1")) as u64);
 
         // --- L2: the real FollowFileExecutor under the writer/poll schedule
-        if jbool(case, "follow") && l1_failed_at.is_none() {
+        out.probe("join_statement", joined.is_some() as u64);
+        if jbool(case, "follow") && l1_failed_at.is_none() && joined.is_none() {
             let content = gen::join_lines(&lines, true);
             let mut f = WorldSpec::new(&defs, &stmt, Mode::FollowExec { head: true });
             f.files.push((FOLLOW_PATH.to_owned(), Vec::new()));
